@@ -98,31 +98,31 @@ def generate(ctx, rng):
     for i in range(0, len(subsets), 64):
         yield ("getprops", i), {"kind": "getprops", "subsets": [list(s) for s in subsets[i:i + 64]], "container": ["set", "list", "tuple", "frozenset"][(i // 64) % 4]}
     yield ("setprops-single",), {"kind": "setprops-single"}
-    for j in range(40 if quick else 1500):
+    for j in range(40 if quick else 7500):
         k = rng.randint(1, len(SUPPORTED))
         ids = rng.sample(range(len(SUPPORTED)), k)
         yield ("setprops-multi", j), {"kind": "setprops-multi", "items": [(i, rng.randrange(len(VALUE_DOMAINS[SUPPORTED[i]]))) for i in ids]}
     # set state over the C10 generator
     states = [st for _, st in gen.per_field_sweeps(rng)] + gen.pairwise(rng, gen.PAIRWISE_DOMAINS)
-    states += [gen.random_state(rng) for _ in range(3000 if quick else 60000)]
+    states += [gen.random_state(rng) for _ in range(3000 if quick else 300000)]
     for i in range(0, len(states), 100):
         yield ("setstate", i), {"kind": "setstate", "states": states[i:i + 100]}
     # long mixed sequence (several wrap-arounds)
-    n_long = 5000 if quick else 80000
+    n_long = 5000 if quick else 400000
     for i in range(0, n_long, 500):
         yield ("long", i), {"kind": "long", "n": 500, "lseed": rng.getrandbits(32)}
     # device-side: public operations with capability profiles
-    for j in range(80 if quick else 1200):
+    for j in range(80 if quick else 6000):
         yield ("ops", j), {"kind": "ops", "oseed": rng.getrandbits(32), "debug_logging": j % 2 == 1}
     # the same against devices that use the additive body check and whose replies are sometimes junk, corrupted, an error packet or missing
-    for j in range(120 if quick else 2500):
+    for j in range(120 if quick else 12500):
         yield ("ops-faulty", j), {"kind": "ops", "oseed": rng.getrandbits(32), "debug_logging": j % 5 == 1, "faulty": True,
                                   "check": ["sum", "crc"][j % 2]}
     # two client objects working against two devices at the same time
-    for j in range(60 if quick else 1500):
+    for j in range(60 if quick else 7500):
         yield ("ops-pair", j), {"kind": "ops-pair", "oseed": rng.getrandbits(32)}
     # commands constructed first and serialised later, in another order, with other commands constructed in between
-    for j in range(60 if quick else 3000):
+    for j in range(60 if quick else 15000):
         yield ("deferred", j), {"kind": "deferred", "lseed": rng.getrandbits(32), "n": rng.randint(2, 9)}
 
 
